@@ -15,6 +15,19 @@ C01_PROBES = {
                                   Set("w", _TINY()), Set("k", Int(0)),
                                   While(Rd("w"), Blk(Set("k", Op("Add", Rd("k"), Int(1))), Set("w", Int(0)))), SetG("k", Rd("k")),
                                   SetG("z", Op("Not", Real(0, 0))), If(Real(0, 0), SetG("zz", Int(1)))]),
+    # the boolean operators are strict: both operands are evaluated, left to right, whatever the left one is
+    # (host calls, a callee that assigns a global, a callee that calls the host - each as the right operand of a decided operator)
+    "boolean-operators-evaluate-both-operands": Prog(
+        [SetG("t", Int(0)),
+         SetG("a", Op("And", Int(0), Log(Int(7)))), SetG("b", Op("Or", Int(5), Log(Int(8)))),
+         SetG("c", Op("And", Nil(), Call("touch"))), SetG("d", Op("Or", Str("x"), Call("touch"))),
+         SetG("e", Op("And", Log(Int(1)), Log(Int(2)))), SetG("f", Op("Or", Log(Int(3)), Log(Int(4)))),
+         SetG("g", Op("Xor", Int(1), Call("touch"))),
+         SetG("h", Op("And", Op("Or", Int(1), Call("touch")), Op("And", Int(0), Call("touch")))),
+         If(Op("Or", Int(1), Call("touch")), SetG("i", Int(1))),
+         Set("w", Int(2)),
+         While(Op("And", Rd("w"), Call("touch")), Set("w", Op("Sub", Rd("w"), Int(1))))],
+        ("touch", [], [SetG("t", Op("Add", Rd("t"), Int(1))), Log(Rd("t")), Ret(Int(1))])),
     # Array card evaluated while operands of an enclosing card are pending: its hidden local takes the
     # slot of the pending operand   10 + len([1,2,3])  ->  3
     "array-with-pending-operands": Prog([SetG("r", Op("Add", Int(10), Op("Len", Arr(Int(1), Int(2), Int(3)))))]),
@@ -162,6 +175,14 @@ C07_IDIOMS = {
                              SetG("big", Call("std.filter", Closure(["k", "v", "i"], Ret(Op("Less", Int(15), Rd("v")))), Rd("t"))),
                              Set("u", Table()), C("SetProperty", [Int(5), Rd("u"), Nil()]), C("SetProperty", [Int(6), Rd("u"), Int(0)]),
                              ForEach("", "k", "v", Rd("u"), Blk(Log(Rd("k"), Rd("v"))))]),
+    # a table that grows while string-literal keys and values are stored: key and value of the SetProperty in progress are only on the
+    # operand stack when the growth allocates (and may collect)
+    "setproperty-operands-during-growth": Prog(
+        [SetG("t", Table())] +
+        [C("SetProperty", [Str("the value number %d" % j), Rd("t"), Str("property-key-number-%d" % j)]) for j in range(14)] +
+        [SetG("junk", Str("garbage"))] +
+        [SetG("r%d" % j, C("GetProperty", [Rd("t"), Str("property-key-number-%d" % j)])) for j in range(14)] +
+        [SetG("len", Op("Len", Rd("t"))), ForEach("", "k", "v", Rd("t"), Blk(Log(Rd("k"), Rd("v"))))]),
     # a table used as a key: it stays alive, with its own entries, as long as the outer table does
     "table-as-key": Prog([Set("outer", Table()), Call("fill", Rd("outer")), SetG("junk", Str("garbage one")), SetG("junk", Table()),
                           SetG("junk", Str("garbage two")), SetG("junk2", Arr(Int(1), Int(2), Int(3))), SetG("junk", Str("garbage three")),
